@@ -17,6 +17,7 @@ Decided clauses:
   R17.5 a protection change never touches the region: on every path of _sodium_mprotect the only memory access through the caller's
         pointer or the recomputed region start is the read of the size word in the header page (unprotected_ptr - 2 * page_size);
         the canary lies inside the region and may be inaccessible.
+  R17.7 MAP_FAILED never leaves _alloc_aligned as a pointer: the mmap result is returned only under a `!= MAP_FAILED` fact.
   R17.6 detection terminates unconditionally: every path of _out_of_bounds() ends, without returning, in abort() itself and no
         function it calls can reach an indirect call (the misuse handler is application code and may not return).
 NOT decided: that a protected page faults (OS), protection-transition histories.
@@ -326,6 +327,9 @@ def run(ctx, chk):
                                                                ", ".join(sorted(set(indirect))[:2]) if indirect else "")),
                key="R17.6 _out_of_bounds")
     chk.floor("R17.6", "paths of _out_of_bounds", n176, 1)
+    # ---- R17.7 a refused mapping is reported as NULL ("oversized requests fail with ENOMEM"): C20's forwarding rule on this unit ---
+    from . import c20
+    c20.mmap_escape_rule(prog, chk, "R17.7", ("sodium/utils.c",), floor=1)
     # ---- R17.5 changing the protection never touches the region itself --------------------------------------------------------
     # The user region (with its canary) may be PROT_NONE when a protection call arrives; the only memory _sodium_mprotect may
     # read is the size word in the read-only header page two pages below. Any other access through the caller's pointer or
